@@ -1,0 +1,146 @@
+// Copyright 2020-2025 Buf Technologies, Inc.
+//
+// Licensed under the Apache License, Version 2.0 (the "License");
+// you may not use this file except in compliance with the License.
+// You may obtain a copy of the License at
+//
+//      http://www.apache.org/licenses/LICENSE-2.0
+//
+// Unless required by applicable law or agreed to in writing, software
+// distributed under the License is distributed on an "AS IS" BASIS,
+// WITHOUT WARRANTIES OR CONDITIONS OF ANY KIND, either express or implied.
+// See the License for the specific language governing permissions and
+// limitations under the License.
+
+//go:build verif
+
+package bufprotoplugin
+
+// Contracts for the gocv verifier (see /verif/DESIGN.md). Comment-only.
+// Spec functions, ghost variables and trusted library contracts: /verif/specs/C17_writer.spec (prefix v_).
+//
+// C17 / C13 — the response writer. It hands plugin-supplied names to bucket methods ONLY (storage.PutPath on the
+// write bucket, Get on the insertion point read bucket); it never builds an os path itself. What is proved here:
+//   * the set of names handed to buckets during one WriteResponse is a subset of the names the response carries
+//     (nothing invented, nothing derived by concatenation), and each goes to the bucket it was meant for;
+//   * an insertion point reads its target from the read bucket the caller supplied (the bucket of THIS run) and
+//     rewrites exactly that name; without such a bucket it is an error and nothing is touched for that file;
+//   * every failing bucket call is reported.
+// That an escaping or absolute name ("../x", "/x") is refused is the obligation of the bucket: the os writer only
+// ever passes storagemem buckets (bufprotopluginos.*#mem-bucket), whose Put/Get are under contract
+// (storagemem.(*bucket).Put#validated, Get#found: C13), and the disk bucket validates again at Close.
+//
+//@ inline func newWriteResponseOptions
+//
+// The option closure stores the given bucket in the options record and nothing else.
+//@ pure func WriteResponseWithInsertionPointReadBucket(insertionPointReadBucket) (r)
+//@   property C17
+//@   ensures r != nil
+//@   closure 0 ensures writeResponseOptions.insertionPointReadBucket == insertionPointReadBucket
+//
+//@ func applyInsertionPoint(ctx, file, readBucket, writeBucket) (retErr)
+//@   property C17
+//@   modifies ghost.fail, ghost.wfail, ghost.sinkPaths, ghost.sinkBuckets, ghost.lastPutOptions, ghost.buf, ghost.v_scanPos, ghost.v_match
+//@   requires readBucket != nil
+//@   ensures only-the-target {C17 C13}: ghost.sinkPaths == add(old(ghost.sinkPaths), file.GetName())
+//@   ensures target-read-from-read-bucket {C17 C13}: readBucket in ghost.sinkBuckets
+//@   ensures only-given-buckets {C17 C13}: ghost.sinkBuckets == add(old(ghost.sinkBuckets), readBucket) || ghost.sinkBuckets == add(add(old(ghost.sinkBuckets), readBucket), writeBucket)
+//@   ensures reported: ghost.fail && !old(ghost.fail) ==> retErr != nil
+//@   ensures write-reported: ghost.wfail && !old(ghost.wfail) ==> retErr != nil
+//@   canary ensures retErr != nil
+//@   canary ensures retErr == nil
+//
+// ghost.v_ipRead: the insertion point read bucket in force after the options were applied (nil: none).
+// (`response.File` in the clauses is the final-heap value: the implementation reads it after the option calls, which the
+// engine treats as unknown calls; the interface contract in C17_writer.spec has no heap effect and says why.)
+//@ func (h *responseWriter) WriteResponse(ctx, writeBucket, response, options) (err)
+//@   property C17
+//@   modifies heap, ghost.fail, ghost.wfail, ghost.sinkPaths, ghost.sinkBuckets, ghost.lastPutOptions, ghost.buf, ghost.v_scanPos, ghost.v_match, ghost.v_ipRead
+//@   ghost before "for _, file := range response.File" v_ipRead := writeResponseOptions.insertionPointReadBucket
+//@   ensures no-options-no-bucket: len(options) == 0 ==> ghost.v_ipRead == nil
+//@   ensures names-only {C17 C13}: forall q string :: q in ghost.sinkPaths && !(q in old(ghost.sinkPaths)) ==> (exists i int :: 0 <= i && i < len(response.File) && q == response.File[i].GetName())
+//@   ensures all-written: err == nil ==> (forall i int :: 0 <= i && i < len(response.File) ==> response.File[i].GetName() in ghost.sinkPaths)
+//@   ensures only-given-buckets {C17 C13}: forall b ref :: b in ghost.sinkBuckets && !(b in old(ghost.sinkBuckets)) ==> b == writeBucket || (b == ghost.v_ipRead && b != nil)
+//@   ensures plain-files-to-write-bucket {C17 C13}: (forall i int :: 0 <= i && i < len(response.File) ==> response.File[i].GetInsertionPoint() == "") ==> (forall b ref :: b in ghost.sinkBuckets && !(b in old(ghost.sinkBuckets)) ==> b == writeBucket)
+//@   ensures insertion-needs-bucket: ghost.v_ipRead == nil && (exists i int :: 0 <= i && i < len(response.File) && response.File[i].GetInsertionPoint() != "") ==> err != nil
+//@   ensures reported: ghost.fail && !old(ghost.fail) ==> err != nil
+//@   ensures write-reported: ghost.wfail && !old(ghost.wfail) ==> err != nil
+//@   loop 0 invariant $i == 0 ==> writeResponseOptions.insertionPointReadBucket == nil
+//@   loop 1 invariant response.File == $entry(response.File)
+//@   loop 1 invariant forall q string :: q in ghost.sinkPaths && !(q in old(ghost.sinkPaths)) ==> (exists i int :: 0 <= i && i < $i && q == response.File[i].GetName())
+//@   loop 1 invariant forall i int :: 0 <= i && i < $i ==> response.File[i].GetName() in ghost.sinkPaths
+//@   loop 1 invariant forall b ref :: b in ghost.sinkBuckets && !(b in old(ghost.sinkBuckets)) ==> b == writeBucket || (b == ghost.v_ipRead && b != nil)
+//@   loop 1 invariant (forall i int :: 0 <= i && i < $i ==> response.File[i].GetInsertionPoint() == "") ==> (forall b ref :: b in ghost.sinkBuckets && !(b in old(ghost.sinkBuckets)) ==> b == writeBucket)
+//@   loop 1 invariant ghost.v_ipRead == nil ==> (forall i int :: 0 <= i && i < $i ==> response.File[i].GetInsertionPoint() == "")
+//@   loop 1 invariant ghost.fail ==> old(ghost.fail)
+//@   loop 1 invariant ghost.wfail ==> old(ghost.wfail)
+//@   canary ensures err != nil
+//@   canary ensures err == nil
+//
+// writeInsertionPoint, on the lines of the target (bufio.ScanLines tokens, /verif/specs/C17_writer.spec):
+//   * the result is v_ipOut: every target line unchanged and in order, joined by "\n", and in front of every line that
+//     contains "@@protoc_insertion_point(NAME)" the inserted content, line by line, each line indented like the marker
+//     line and ended by "\n" (protoc: "inserted immediately above the line containing the insertion point");
+//   * no line contains the marker <==> error (when the target could be scanned completely); a scan failure is an error.
+// Not modelled: the target's own line terminators (the code normalises "\r\n" to "\n" and drops a final newline: a
+// documented TODO), aliasing of Scanner.Bytes() with the scanner's buffer.
+//@ func writeInsertionPoint(ctx, insertionPointFile, targetFile) (r, retErr)
+//@   property C17
+//@   modifies ghost.buf, ghost.v_scanPos, ghost.v_match
+//@   use v_ipOut-zero, v_ipOut-step, v_ipFound-zero, v_ipFound-step, v_str-newline, v_ws-def
+//@   reveal v_marker
+//@   ghost after "match := []byte(" v_match := v_str(match)
+//@   ensures marker-text: ghost.v_match == v_marker(insertionPointFile.GetInsertionPoint())
+//@   ensures scan-failure-reported: v_readerEnd(targetFile) != len(v_readerLines(targetFile)) ==> retErr != nil
+//@   ensures missing-marker-is-error: !v_ipFound(v_readerLines(targetFile), len(v_readerLines(targetFile)), ghost.v_match) ==> retErr != nil
+//@   ensures found-marker-succeeds: v_readerEnd(targetFile) == len(v_readerLines(targetFile)) && v_textEnd(insertionPointFile.GetContent()) == len(v_splitLines(insertionPointFile.GetContent())) && v_ipFound(v_readerLines(targetFile), len(v_readerLines(targetFile)), ghost.v_match) ==> retErr == nil
+//@   ensures inserted-above-marker-lines: retErr == nil ==> v_str(r) == v_ipOut(v_readerLines(targetFile), len(v_readerLines(targetFile)), ghost.v_match, v_splitLines(insertionPointFile.GetContent()))
+//@   ensures retErr != nil ==> isNilSlice(r)
+//@   loop 0 invariant postInsertionContent != nil && targetScanner != nil && v_str(newline) == "\n" && ghost.v_match == v_str(match)
+//@   loop 0 invariant 0 <= i && i == ghost.v_scanPos[targetScanner] && i <= v_scanEnd(targetScanner)
+//@   loop 0 invariant ghost.buf[postInsertionContent] == v_ipOut(v_readerLines(targetFile), i, ghost.v_match, v_splitLines(insertionPointFile.GetContent()))
+//@   loop 0 invariant found == v_ipFound(v_readerLines(targetFile), i, ghost.v_match)
+//@   canary ensures retErr != nil
+//@   canary ensures retErr == nil
+//
+// leadingWhitespace (bytes): the result is a copy of the prefix of buf that ends right before the first rune that is
+// not unicode.IsSpace (v_wsEnd: runes as utf8.DecodeRune delimits them), the whole of buf if there is none.
+//@ pure func leadingWhitespace(buf) (r)
+//@   property C17
+//@   use v_suffix-self, v_suffix-step, v_decode-content, v_wsEnd-unfold
+//@   ensures is-prefix: len(r) <= len(buf) && (forall j int :: 0 <= j && j < len(r) ==> r[j] == buf[j])
+//@   ensures up-to-first-non-space: len(r) == v_wsEnd(buf, 0)
+//@   loop 0 invariant 0 <= leadingSize && leadingSize + len(iterBuf) == len(buf)
+//@   loop 0 invariant v_suffixOf(iterBuf, buf)
+//@   loop 0 invariant v_wsEnd(buf, 0) == v_wsEnd(buf, leadingSize)
+//
+// writeWithPrefixAndLineEnding "iterates over each of the given reader's lines, prepends prefix, and appends the
+// newline sequence" (its doc comment): all-lines-written. It FAILS on the tree (kept, reported): the function ignores
+// scanner.Err(), so when the scan stops early (a line of the inserted content longer than 64 KiB: bufio.ErrTooLong)
+// the rest of the content is silently dropped; what IS proved is delivered-lines-written.
+//@ func writeWithPrefixAndLineEnding(dst, src, prefix, newline) (err)
+//@   property C17
+//@   modifies ghost.buf, ghost.v_scanPos
+//@   requires dst != nil
+//@   use v_prefixed-zero, v_prefixed-step
+//@   ensures delivered-lines-written: ghost.buf[dst] == old(ghost.buf)[dst] + v_prefixed(v_readerLines(src), v_readerEnd(src), v_str(prefix), v_str(newline))
+//@   ensures scan-failure-reported: (err == nil) <==> v_readerEnd(src) == len(v_readerLines(src))
+//@   ensures all-lines-written: err == nil ==> ghost.buf[dst] == old(ghost.buf)[dst] + v_prefixed(v_readerLines(src), len(v_readerLines(src)), v_str(prefix), v_str(newline))
+//@   ensures other-buffers-unchanged: forall b ref :: b != dst ==> ghost.buf[b] == old(ghost.buf)[b]
+//@   ensures other-scanners-unchanged: forall s ref :: s in old(ghost.v_scanPos) ==> ghost.v_scanPos[s] == old(ghost.v_scanPos)[s]
+//@   loop 0 invariant scanner != nil && !(scanner in old(ghost.v_scanPos)) && 0 <= ghost.v_scanPos[scanner] && ghost.v_scanPos[scanner] <= v_scanEnd(scanner)
+//@   loop 0 invariant ghost.buf[dst] == old(ghost.buf)[dst] + v_prefixed(v_readerLines(src), ghost.v_scanPos[scanner], v_str(prefix), v_str(newline))
+//@   loop 0 invariant forall b ref :: b != dst ==> ghost.buf[b] == old(ghost.buf)[b]
+//@   loop 0 invariant forall s ref :: s in old(ghost.v_scanPos) ==> ghost.v_scanPos[s] == old(ghost.v_scanPos)[s]
+//
+//@ func newResponseWriter(logger) (r)
+//@   property C17
+//@   ensures r != nil
+//@ func NewResponseWriter(logger) (r)
+//@   property C17
+//@   ensures r != nil
+//
+//@ func NewPluginResponse(response, pluginName, pluginOut) (r)
+//@   property C17
+//@   ensures r != nil && r.Response == response && r.PluginName == pluginName && r.PluginOut == pluginOut
+//@   ensures fresh: !old(allocated(r)) && allocated(r)
